@@ -27,6 +27,7 @@ VEC_NEW = "alloc::vec::Vec::<T>::new"
 VEC_CLEAR = "alloc::vec::Vec::<T, A>::clear"
 VEC_POP = "alloc::vec::Vec::<T, A>::pop"
 VEC_REVERSE = "core::slice::<impl [T]>::reverse"
+SPLIT_OFF = "alloc::vec::Vec::<T, A>::split_off"
 INDEX = "core::ops::index::Index::index"
 SLICE_LEN = "core::slice::<impl [T]>::len"
 SLICE_IS_EMPTY = "core::slice::<impl [T]>::is_empty"
@@ -167,14 +168,15 @@ def _under(key, base):
 
 
 class State:
-    __slots__ = ("vec", "sym")
+    __slots__ = ("vec", "sym", "dirty")
 
-    def __init__(self, vec=None, sym=None):
+    def __init__(self, vec=None, sym=None, dirty=None):
         self.vec = dict(vec or {})
         self.sym = dict(sym or {})
+        self.dirty = set(dirty or ())     # vectors whose elements are no longer the original ones in original order
 
     def copy(self):
-        return State(self.vec, self.sym)
+        return State(self.vec, self.sym, self.dirty)
 
     def join(self, other):
         vec = {}
@@ -204,10 +206,10 @@ class State:
                 for val, vv in ea + eb:
                     merged[val] = _join_vecs(merged[val], vv) if val in merged else vv
                 sym[l] = ("sel", tuple(sorted((val, tuple(sorted(vv.items()))) for val, vv in merged.items())))
-        return State(vec, sym)
+        return State(vec, sym, self.dirty | other.dirty)
 
     def __eq__(self, o):
-        return o is not None and self.vec == o.vec and self.sym == o.sym
+        return o is not None and self.vec == o.vec and self.sym == o.sym and self.dirty == o.dirty
 
 
 class VecLen:
@@ -446,6 +448,32 @@ class VecLen:
             # &Vec<T> -> &[T]: same length facts
             st.sym[dl] = ("ref", key0)
             return
+        if name == SPLIT_OFF and key0 and len(args) == 2:
+            iv = self._iv(st, key0)
+            at = self._sym_of_operand(st, args[1])
+            self.site_state[bb] = (key0, iv)
+            if at and at[0] == "const":
+                k = at[1]
+                ok = k <= iv[0]
+                self.obligations.append({"bb": bb, "kind": "split_off", "vec": key0, "index": k, "lo": iv[0], "hi": iv[1],
+                                         "ok": ok, "orig": None, "need": "%d <= len" % k})
+                head = iv[2][:k] if (iv[2] is not None and len(iv[2]) >= k) else (tuple(range(k)) if key0 not in st.dirty and k < 64 else None)
+                tail = iv[2][k:] if (iv[2] is not None and len(iv[2]) >= k) else None
+                st.vec[key0] = (k, k, head) if ok else (0, k, None)
+                if dl is not None:
+                    st.vec["_%d" % dl] = (max(iv[0] - k, 0), iv[1] - k if iv[1] < INF else INF, tail)
+                    if tail is None:
+                        st.dirty.add("_%d" % dl)     # its elements are not indices 0.. of the original
+                self._forget_syms(st, key0)
+            else:
+                self.obligations.append({"bb": bb, "kind": "split_off", "vec": key0, "index": "?", "lo": iv[0], "hi": iv[1],
+                                         "ok": False, "orig": None, "need": "at <= len (split point not a constant)"})
+                st.vec[key0] = (0, INF, None)
+                st.dirty.add(key0)
+                self._forget_syms(st, key0)
+            return
+        if name in (VEC_REMOVE, VEC_POP, VEC_PUSH, VEC_CLEAR) and key0:
+            st.dirty.add(key0)
         if name == VEC_REMOVE and key0:
             iv = self._iv(st, key0)
             idx = self._sym_of_operand(st, args[1])
@@ -531,6 +559,8 @@ class VecLen:
         # any other call receiving a &mut to a tracked vec: forget its length
         for a in args:
             k = self._vec_key_of_ref(st, a)
+            if k is not None:
+                st.dirty.add(k)
             if k is not None and k in st.vec:
                 # was the reference a mutable one?  be conservative: forget
                 st.vec[k] = (0, INF, None)
